@@ -221,19 +221,25 @@ inductive Event
   | matchStopped (p : PolicyKey) (e : EpKey)
 deriving Repr, DecidableEq
 
+/-- `OnUpdate(PolicyKey)`, first part: `allPolicies` / `pendingPolicyUpdates` bookkeeping. -/
+def Resolver.recordPolicy (r : Resolver) (k : PolicyKey) : Option PolicyIn → Resolver
+  | none => { r with allPolicies := mdel k r.allPolicies, pending := sdel k r.pending }
+  | some p => { r with allPolicies := mset k (extractPolicyMetadata p) r.allPolicies }
+
+/-- `OnUpdate(PolicyKey)`, second part: unmatched policies are not forwarded to the sorter; for a
+matched one the sorter is updated and, if it reports a change, the matching endpoints become dirty. -/
+def Resolver.applyPolicy (r : Resolver) (k : PolicyKey) (m : Option PolMeta) : Resolver :=
+  if !r.polHasMatch k then r
+  else
+    let (s, dirty) := r.sorter.updatePolicy k m
+    let r := { r with sorter := s }
+    if dirty then { r with dirty := addAll (r.matchingEps k) r.dirty } else r
+
 /-- `OnUpdate`, `OnDatamodelStatus`, `OnPolicyMatch`, `OnPolicyMatchStopped`. -/
 def Resolver.step (r : Resolver) : Event → Resolver
   | .endpoint k (some v) => { r with endpoints := mset k v r.endpoints, dirty := sadd k r.dirty }
   | .endpoint k none => { r with endpoints := mdel k r.endpoints, dirty := sadd k r.dirty }
-  | .policy k v =>
-    let r := match v with
-      | none => { r with allPolicies := mdel k r.allPolicies, pending := sdel k r.pending }
-      | some p => { r with allPolicies := mset k (extractPolicyMetadata p) r.allPolicies }
-    if !r.polHasMatch k then r
-    else
-      let (s, dirty) := r.sorter.updatePolicy k (v.map extractPolicyMetadata)
-      let r := { r with sorter := s }
-      if dirty then { r with dirty := addAll (r.matchingEps k) r.dirty } else r
+  | .policy k v => (r.recordPolicy k v).applyPolicy k (v.map extractPolicyMetadata)
   | .tier name v =>
     let (s, _) := r.sorter.onTierUpdate name v
     { r with sorter := s, dirty := addAll r.matchedEps r.dirty }
